@@ -1407,10 +1407,46 @@ fn run_meta_repeat(r: &Req) -> String {
     let threads = r.u("threads");
     let nthreads = r.u("par");
     let mut rng = Rng::new(seed ^ 0xC05);
-    let pr = gen_problem(&mut rng, &fam);
+    let mut pr = gen_problem(&mut rng, &fam);
     let mut st = base_settings();
     st.direct_solve_method = backend;
     st.max_threads = threads as u32;
+    // `hugeb=1`: right-hand side entries ~1e301 on the rows of the zero cones (on the first row when
+    // there is none) make the initial KKT solve fail (iterative refinement meets non-finite numbers):
+    // `default_start` then shifts whatever `solve_initial_point` left in `variables` into the cone —
+    // zeros since /repo 7c1c881, the un-scaled result of the previous `solve()` before.  `maxiter`
+    // small keeps the first solve at (or near) that starting point with an ordinary status.
+    if r.has("hugeb") && r.u("hugeb") == 1 {
+        let mut row = 0;
+        let mut hit = false;
+        for c in &pr.cones {
+            let d = cone_dim(c);
+            if matches!(c, ZeroConeT(_)) {
+                for i in row..row + d {
+                    pr.b[i] = (if rng.bool(0.5) { 1.0 } else { -1.0 }) * rng.uniform(1.0, 9.0) * 1e300;
+                    hit = true;
+                }
+            }
+            row += d;
+        }
+        if !hit && !pr.b.is_empty() {
+            pr.b[0] = rng.uniform(1.0, 9.0) * 1e300;
+        }
+        if r.has("maxiter") {
+            st.max_iter = r.u("maxiter") as u32;
+        }
+    }
+    // does the initial KKT solve of a fresh solver succeed? (2 = not applicable: nonsymmetric cone)
+    let initok = {
+        let mut f = build(&pr, false, &st);
+        if f.cones.is_symmetric() {
+            f.cones.set_identity_scaling();
+            f.kktsystem.update(&f.data, &f.cones, &f.settings);
+            f.kktsystem.solve_initial_point(&mut f.variables, &f.data, &f.settings) as usize
+        } else {
+            2
+        }
+    };
     // same solver twice, then after poisoning the mutable state
     let mut s = build(&pr, false, &st);
     s.solve();
@@ -1522,7 +1558,7 @@ fn run_meta_repeat(r: &Req) -> String {
             Err(_) => return format!("FAIL thread-{}-panicked", k),
         }
     }
-    format!("ok status={:?} iters={} par={}", a.status, a.iters, nthreads)
+    format!("ok status={:?} iters={} par={} initok={}", a.status, a.iters, nthreads, initok)
 }
 
 // ---- presolve / equilibration / cone-split toggles on data with a huge NEGATIVE bound -------
@@ -1759,7 +1795,9 @@ fn generate(s: &mut Session) {
                 the relation `Stale` of C05.full_solve_reads_only: NaN / inf / huge values in EVERY other mutable \
                 component incl. x1,z1,x2,z2,workz,work_conic, rx_inf, the info block with prev_*, the solution object; \
                 since /repo 1706c1f (symv fills with zero for b = 0, workx = -q by scalarop_from) workx and Px are \
-                dead too and get NaN/inf as well)".into());
+                dead too and get NaN/inf as well; since /repo 7c1c881 solve_initial_point zero-fills variables.x/s/z \
+                first, so the iterate is dead also when the initial KKT solve fails: the `hugeb=1` cases of meta.repeat, \
+                C05.full_solve_idempotent_any_start)".into());
     }
     gen_step_cases(s);
     if s.is_searching() {
@@ -1812,6 +1850,21 @@ fn generate(s: &mut Session) {
                 .u("threads", threads).u("par", par).done(),
         );
         s.count(&format!("repeat:{}:{}x{}", backend, threads, par));
+    }
+    // the same with an initial KKT solve that fails (appended: the stream above is unchanged).  Before
+    // /repo 7c1c881 the second solve started from the un-scaled result of the first one here
+    // (KF-C05-stale-start-after-failed-init); `C05.full_solve_idempotent_any_start`.
+    for k in 0..s.budget(16, 160) {
+        let fam = ["qp", "lp", "socp", "mixed", "psd", "qp", "lp", "exp"][k % 8];
+        let maxiter = [0, 0, 1, 3, 200][k % 5];
+        let seed = s.rng.next_u64() >> 12;
+        let (backend, threads) = *s.rng.choose(&[("qdldl", 1), ("qdldl", 1), ("auto", 1), ("faer", 2)]);
+        let out = s.submit(
+            Line::new("meta.repeat").u("seed", seed as usize).s("fam", fam).s("backend", backend)
+                .u("threads", threads).u("par", 2).u("hugeb", 1).u("maxiter", maxiter).done(),
+        );
+        let io = out.split_whitespace().find(|t| t.starts_with("initok=")).unwrap_or("initok=?").to_string();
+        s.count(&format!("repeat-hugeb:{}:{}", fam, io));
     }
 }
 
